@@ -259,6 +259,31 @@ def gen_sibling(rng, **_):
     return sc
 
 
+def gen_parraise(rng, **_):
+    """a parallel_handlers bus on which one handler raises (or returns an exception object) while sibling handlers of the same
+    event are mid-flight - sleeping, or awaiting a child on a serial bus whose first of several handlers is running"""
+    sc = {'buses': [{'parallel': True, 'maxh': 50, 'wal': False}, {'parallel': rng.random() < 0.2, 'maxh': 50, 'wal': False}],
+          'types': {t: {'timeout': None} for t in 'ABCD'}, 'handlers': [], 'tasks': []}
+    cb = rng.choice([1, 1, 0])                      # where the child lives
+    hs = []
+    hs.append({'bus': 0, 'key': 'A', 'kind': 'async', 'prog': [['dispatch', cb, 'C', 0], ['await', 0], ['sleep', rng.choice([0, 1 / 64])]]})
+    hs.append({'bus': 0, 'key': 'A', 'kind': 'async', 'prog': [['sleep', rng.choice([1 / 64, 1 / 32, 3 / 64])], ['raise']]})
+    if rng.random() < 0.5:
+        hs.append({'bus': 0, 'key': 'A', 'kind': 'async', 'prog': [['sleep', rng.choice([1 / 64, 1 / 16])]]})
+    if rng.random() < 0.3:
+        hs.append({'bus': 0, 'key': 'A', 'kind': 'sync', 'prog': [['raise']]})
+    rng.shuffle(hs)
+    sc['handlers'] += hs
+    for j in range(rng.choice([2, 2, 3])):
+        sc['handlers'].append({'bus': cb, 'key': 'C', 'kind': 'async',
+                               'prog': [['sleep', rng.choice([1 / 16, 1 / 8]) if j == 0 else rng.choice([0, 1 / 64])]]})
+    main = [['dispatch', 0, 'A', 0], ['await', 0]]
+    if rng.random() < 0.5:
+        main += [['dispatch', 0, 'A', 1], ['await', 1]]
+    sc['tasks'].append(main)
+    return sc
+
+
 def gen_idle(rng, **_):
     """wait_until_idle() racing a sequential producer (`await bus.dispatch(...)` in a loop) at every phase offset,
     counted in zero-sleeps, plus external bursts: the re-check loop of wait_until_idle is exercised"""
